@@ -39,7 +39,17 @@ FAST_GUARD = 0.5  # CPU seconds; used once a busy-loop site has been confirmed w
 # ---------------------------------------------------------------------------
 # mutant lists
 # ---------------------------------------------------------------------------
+_GEN_CACHE: dict = {}
+
+
 def gen_mutants(bed_name: str, quick: bool, bed) -> list[tuple]:
+    key = (bed_name, quick)
+    if key not in _GEN_CACHE:
+        _GEN_CACHE[key] = _gen_mutants(bed_name, quick, bed)
+    return _GEN_CACHE[key]
+
+
+def _gen_mutants(bed_name: str, quick: bool, bed) -> list[tuple]:
     k = 1 if quick else 2
     full2 = not quick
     out: list[tuple] = []
@@ -59,6 +69,9 @@ def gen_mutants(bed_name: str, quick: bool, bed) -> list[tuple]:
         seeds(W.l2cap_sig_seeds('lesig'))
         out.extend(W.short_strings('lesig', full2))
         out.extend(B.l2cap_frame_mutants(W.h('0a 0300'), []))
+    elif bed_name == 'le_coc':
+        seeds(W.le_coc_seeds(bed.dyn_rx_cid, bed.v_mtu, bed.v_mps))
+        out.extend(W.short_strings('dyn', full2))
     elif bed_name == 'cl_sig':
         seeds(W.l2cap_sig_seeds('sig'))
         out.extend(W.short_strings('sig', full2))
@@ -121,7 +134,9 @@ def _mut_class(descr: str) -> str:
     return head + '|' + '|'.join(kinds)
 
 
-def site_of(kind: str, out, pout, descr: str) -> str:
+def site_of(bed, kind: str, out, pout, mut) -> str:
+    """Root-cause site of a failure, most specific evidence first."""
+    descr, chan, data = mut
     if kind == 'busy_loop':
         st = (out.busy or (pout.busy if pout else None)) or ['?']
         return st[0]
@@ -129,51 +144,101 @@ def site_of(kind: str, out, pout, descr: str) -> str:
         return out.rec or (pout.rec if pout else None) or '?'
     if kind == 'step_budget':
         return 'loop'
+    # an exception that escaped to the event loop while the reference request / the frame was processed
     for src in ((pout.excs if pout else []), out.excs):
         for t, s in src:
             return f'{t}@{s}'
-    for src in ((pout.raised if pout else []), out.raised):
-        if src:
-            t, s = src[-1]
-            return f'{t}@{s}(swallowed)'
-    return 'silent:' + _mut_class(descr)
+    # a recognisable bad state of the victim (descriptive, see Bed.diagnose)
+    try:
+        d = bed.diagnose(out, pout) if bed is not None else None
+    except Exception as e:  # the victim object graph is not what the bed expects any more
+        d = f'diagnose_failed:{type(e).__name__}'
+    d = d or getattr(out, 'pre_diag', None)
+    if d:
+        return d
+    # an exception raised and swallowed inside bumble while the frame was processed
+    if out.raised:
+        t, s = out.raised[-1]
+        return f'{t}@{s}(swallowed)'
+    c = None
+    try:
+        c = bed.classify(chan, data) if bed is not None else None
+    except Exception:
+        c = None
+    return 'silent:' + (c or _mut_class(descr))
 
 
-def evaluate(bed, mut):
-    """-> ('ok' | 'valid_disconnect' | 'recovered' | 'fail', info dict)"""
+def evaluate(bed, mut, seen=None):
+    """-> (status, info).  status: 'ok' | 'valid_disconnect' | 'recovered' (reference request answered only
+    after virtual time passed) | 'fail' | 'fail_seen' (first reference request failed with an already
+    reported provisional signature: not analysed further)."""
     descr, chan, data = mut
     out = bed.step(chan, data)
     info = {'out': out, 'pout': None}
     bad = out.bad()
     if bad:
-        info.update(kind=bad, reason=bad)
+        info.update(kind=bad, reason=bad, site=site_of(bed, bad, out, None, mut))
         return 'fail', info
     if not bed.alive():
         if bed.is_valid_disconnect(chan, data):
             return 'valid_disconnect', info
         info.update(kind='connection_lost', reason='connection no longer in Device.connections / Host.connections')
+        info['site'] = site_of(bed, 'connection_lost', out, None, mut)
         return 'fail', info
     if bed.is_valid_disconnect(chan, data):
         return 'valid_disconnect', info
+    bed._pout = B.Outcome()
+    if not bed.resync(chan, data):
+        return 'not_probeable', info
+    try:
+        out.pre_diag = bed.diagnose(out, None)  # state right after the frame, before any reference request
+    except Exception as e:
+        out.pre_diag = f'diagnose_failed:{type(e).__name__}'
     r, pout = bed.probe_guarded()
     info['pout'] = pout
     if pout.bad():
         info.update(kind=pout.bad(), reason='while processing the reference request: ' + pout.bad())
+        info['site'] = site_of(bed, pout.bad(), out, pout, mut)
         return 'fail', info
     if r is None:
         return 'ok', info
+    site = site_of(bed, 'probe', out, pout, mut)
+    info['site'] = site
+    info['prov'] = (bed.name, r, site)
+    if seen is not None and info['prov'] in seen:
+        info.update(kind='probe_' + r, reason=f'reference request: {r}')
+        info['usable'] = False
+        if seen[info['prov']].endswith('_once'):
+            # already reported as "only the first request is lost": confirm, then keep using this connection
+            r2, pout2 = bed.probe_guarded()
+            info['usable'] = r2 is None and not pout2.bad()
+        return 'fail_seen', info
+    # is only the first request after the frame lost, or every one?
+    r2, pout2 = bed.probe_guarded()
+    if pout2.bad():
+        info.update(kind=pout2.bad(), reason='while processing the second reference request: ' + pout2.bad(), pout=pout2)
+        info['site'] = site_of(bed, pout2.bad(), out, pout2, mut)
+        return 'fail', info
+    if r2 is None and bed.merges_with_next(chan, data):
+        # byte-stream channel and the frame ended in the middle of a line: the first reference request was,
+        # correctly, read as the rest of that line; the next one is the first well-formed request
+        return 'ok_merged', info
+    if r2 is None:
+        info.update(kind=f'probe_{r}_once', reason=f'the first reference request after the frame: {r}; an identical second one is answered correctly')
+        return 'fail', info
     # let the victim's own time-outs expire, then ask again
     o3 = bed.settle(timers=RETRY_VIRTUAL_SECONDS)
     if o3.bad():
         info.update(kind=o3.bad(), reason='while timers ran: ' + o3.bad(), out=o3)
+        info['site'] = site_of(bed, o3.bad(), o3, None, mut)
         return 'fail', info
     if not bed.alive():
-        info.update(kind='connection_lost', reason='connection dropped by the victim within 40 s after the frame')
+        info.update(kind='connection_lost', reason='connection dropped by the victim within 40 s (virtual) after the frame')
         return 'fail', info
-    r2, pout2 = bed.probe_guarded()
-    if r2 is None and not pout2.bad():
+    r3, pout3 = bed.probe_guarded()
+    if r3 is None and not pout3.bad():
         return 'recovered', info
-    info.update(kind='probe_' + (r2 or r), reason=f'reference request: {r2 or r} (first attempt: {r})')
+    info.update(kind='probe_' + r, reason=f'reference request: {r}; again after a second attempt ({r2}) and after 40 s of virtual time ({r3})')
     return 'fail', info
 
 
@@ -200,7 +265,7 @@ def run_sequence(bed_name: str, seed: int, frames: list[tuple], guard=None):
     try:
         for m in frames[:-1]:
             st, _ = evaluate(bed, m)
-            if st in ('fail', 'valid_disconnect'):
+            if st in ('fail', 'valid_disconnect', 'recovered', 'not_probeable'):
                 return None
         return evaluate(bed, frames[-1])
     finally:
@@ -262,6 +327,21 @@ def reply_class(out) -> tuple:
 
 
 def work(item):
+    import time
+    import warnings
+
+    warnings.simplefilter('ignore')
+    t_cpu = time.process_time()
+    try:
+        return _work(item)
+    finally:
+        pass
+
+
+def _work(item):
+    import time
+
+    t_cpu = time.process_time()
     bed_name, quick, idx, n, seed, explicit = item
     st = core.Stats(bed_name)
     bed = B.BEDS[bed_name](seed)
@@ -277,19 +357,18 @@ def work(item):
                 allm = allm[r:] + allm[:r]
             muts = allm[idx::n]
         hist: list[tuple] = []
-        confirmed_busy: set[str] = set()
-        seen_sigs: set[str] = set()
+        seen: dict = {}
         for mut in muts:
             descr, chan, data = mut
             if bed is None:
                 bed = B.BEDS[bed_name](seed)
                 hist = []
-            status, info = evaluate(bed, mut)
+            status, info = evaluate(bed, mut, seen)
             out = info['out']
             st.case((bed_name, chan, data))
             st.count('frames_injected', len(data) if isinstance(data, (tuple, list)) else 1)
             st.count('loop_steps', out.steps)
-            oc = (bed_name, reply_class(out), tuple(sorted(set(out.excs)))[:3], status)
+            oc = (bed_name, reply_class(out), tuple(sorted(set(out.excs)))[:3], status if status != 'fail_seen' else 'fail')
             st.add('outcome_classes', oc)
             if oc not in reps and len(reps) < 400:
                 reps[oc] = enc_frames([mut])[0]
@@ -299,6 +378,9 @@ def work(item):
                 st.count('frames_raising_ordinary_exception')
             if out.replies:
                 st.count('frames_answered')
+            if status == 'ok_merged':
+                st.count('first_probe_merged_with_unterminated_line')
+                status = 'ok'
             if status == 'ok':
                 hist.append(mut)
                 st.count('probes_ok')
@@ -308,7 +390,12 @@ def work(item):
                 continue
             if status == 'recovered':
                 st.count('probe_ok_only_after_virtual_time')
-                st.add('recovered_classes', (bed_name, _mut_class(descr)))
+                st.add('recovered_classes', (bed_name, info.get('site')))
+                bed.close()
+                bed = None
+                continue
+            if status == 'not_probeable':
+                st.count('frames_after_which_the_channel_cannot_be_probed')
                 bed.close()
                 bed = None
                 continue
@@ -319,27 +406,29 @@ def work(item):
                 continue
             # failure
             st.count('failing_frames')
-            kind = info['kind']
-            prov = core.canon_json({'bed': bed_name, 'kind': kind, 'site': site_of(kind, out, info['pout'], descr)})
-            bed.close()
-            bed = None
-            if prov in seen_sigs:
+            if status == 'fail_seen':
+                if info.get('usable'):
+                    hist.append(mut)
+                    continue
+                bed.close()
+                bed = None
                 hist = []
                 continue
+            bed.close()
+            bed = None
+            kind = info['kind']
             m = minimise(bed_name, seed, hist, mut, kind)
             hist = []
             if m is None:
                 st.count('failures_not_reproduced_on_fresh_connection')
-                st.add('unreproduced', (bed_name, kind, _mut_class(descr)))
+                st.add('unreproduced', (bed_name, kind, info.get('site')))
                 continue
             frames, (s2, info2) = m
-            site = site_of(kind, info2['out'], info2['pout'], frames[-1][0])
-            sig = {'bed': bed_name, 'kind': kind, 'site': site}
-            if len(frames) > 2:
-                sig['needs_history'] = True
-            key = core.canon_json(sig)
-            seen_sigs.add(prov)
-            seen_sigs.add(key)
+            site = info2.get('site') or '?'
+            if 'prov' in info:
+                seen[info['prov']] = kind
+            if 'prov' in info2:
+                seen[info2['prov']] = kind
             o2 = info2['out']
             p2 = info2['pout']
             msg = (
@@ -355,6 +444,7 @@ def work(item):
         if bed is not None:
             bed.close()
     st.reps = reps
+    st.cpu_s = time.process_time() - t_cpu
     return st
 
 
@@ -368,7 +458,7 @@ def _hex_short(data) -> str:
 # ---------------------------------------------------------------------------
 # entry points
 # ---------------------------------------------------------------------------
-BED_ORDER = ['hfp_hf', 'hfp_ag', 'rfcomm', 'avctp', 'avdtp', 'sdp', 'cl_sig', 'hci_cl', 'hci_le', 'le_sig', 'smp', 'att_server', 'att_client',
+BED_ORDER = ['hfp_hf', 'hfp_ag', 'rfcomm', 'avctp', 'avdtp', 'sdp', 'cl_sig', 'hci_cl', 'hci_le', 'le_sig', 'le_coc', 'smp', 'att_server', 'att_client',
              'att_client_pending']
 
 
@@ -414,14 +504,16 @@ def run(ctx: core.Context) -> int:
     ctx.log(f'{len(beds)} beds x {slices} slices')
     results = core.pmap(work, items, ctx.jobs)
     reps_by_bed: dict[str, dict] = {}
+    cpu: dict[str, float] = {}
     for (b, *_), st in zip(items, results):
         ctx.sub(b).merge(st)
+        cpu[b] = cpu.get(b, 0.0) + getattr(st, 'cpu_s', 0.0)
         for k, v in getattr(st, 'reps', {}).items():
             reps_by_bed.setdefault(b, {}).setdefault(k, v)
     for b in beds:
         s = ctx.sub(b)
         ctx.log(f'  {b}: cases={s.evaluations} outcome_classes={len(s.sets.get("outcome_classes", ()))} '
-                f'exc_sites={len(s.sets.get("exception_sites", ()))} failing={s.counters.get("failing_frames", 0)} violations={len(s.violations)}')
+                f'cpu={cpu.get(b, 0):.0f}s exc_sites={len(s.sets.get("exception_sites", ()))} failing={s.counters.get("failing_frames", 0)} violations={len(s.violations)}')
 
     if not ctx.quick:
         # sequences: every ordered pair from a reduced set (one representative per outcome class, <= 40 per bed)
@@ -471,5 +563,4 @@ def replay(v: core.Violation) -> list[str]:
     if status != 'fail':
         return []
     kind = info['kind']
-    site = site_of(kind, info['out'], info['pout'], frames[-1][0])
-    return [f'{case["bed"]}: {kind} at {site}: {info["reason"]}']
+    return [f'{case["bed"]}: {kind} at {info.get("site")}: {info["reason"]}']
